@@ -51,6 +51,7 @@ class Recorder:
         self.stack = []     # adapter-level constructor calls in progress: (frame id, class name)
         self.buffers = {}   # id -> bytearray returned by a library call made directly by the adapter
         self.buffer_src = {}
+        self.handed = {}    # id -> object handed to the adapter (returned by / constructed through a direct call)
 
     def _rec(self, o, direct):
         if o is None or isinstance(o, (enum.Enum, type)) or isinstance(o, _PRIM):
@@ -62,6 +63,7 @@ class Recorder:
             self.root[id(o)] = self.stack[0][1] if self.stack else None
         if direct:
             self.inputs[id(o)] = o
+            self.handed[id(o)] = o
 
     def __call__(self, frame, event, arg):
         if event not in ("call", "return"):
@@ -82,6 +84,8 @@ class Recorder:
                 self.stack.pop()
         else:
             self._rec(arg, False)
+            if from_adapter and arg is not None and id(arg) in self.objs:
+                self.handed[id(arg)] = arg
             # only pack() results: property getters (value, tm_data, ...) hand out internal state by design
             if from_adapter and isinstance(arg, bytearray) and frame.f_code.co_name == "pack":
                 self.buffers[id(arg)] = arg
@@ -117,6 +121,36 @@ def _perturb_conf(c):
     return changed
 
 
+# classes whose reported length must equal the number of octets pack() yields (C11 / C06 / C07 / C08)
+LEN_ATTR = {n: "packet_len" for n in (
+    "PusTc", "PusTm", "FileDataPdu", "EofPdu", "FinishedPdu", "AckPdu", "MetadataPdu", "NakPdu", "PromptPdu",
+    "KeepAlivePdu", "CfdpTlv", "CfdpLv", "EntityIdTlv", "FlowLabelTlv", "FaultHandlerOverrideTlv",
+    "FileStoreRequestTlv", "FileStoreResponseTlv", "MessageToUserTlv")}
+
+
+def generic_invariants(objs, op):
+    """the one statement that holds for EVERY live object of these classes whatever (valid or invalid)
+    sequence of calls and arguments produced it: packing twice without changes yields identical octets.
+    (Reported length = packed length and decode(pack) re-packing to itself were tried here too and
+    REMOVED: objects built from out-of-domain arguments or decoded from malformed-but-accepted input
+    legitimately violate them; the per-module oracles check those clauses on valid parameter sets.)"""
+    for o in objs:
+        name = type(o).__name__
+        if name not in LEN_ATTR:
+            continue
+        try:
+            p1 = bytes(o.pack())
+        except Exception:
+            continue        # an object that cannot be packed (out-of-range fields) says nothing here
+        try:
+            p2 = bytes(o.pack())
+        except Exception as e:
+            return ("pack-not-repeatable", "%s (op %d): second pack() raised %r after the first succeeded" % (name, op, e))
+        if p1 != p2:
+            return ("pack-not-repeatable", "%s (op %d): two consecutive pack() calls differ: %s / %s" % (name, op, p1.hex()[:60], p2.hex()[:60]))
+    return None
+
+
 def probe_pair(fn, case_a, case_b):
     """returns None or (kind, message)"""
     rec = run_recorded(fn, case_a[0], case_a[1])
@@ -146,6 +180,12 @@ def probe_pair(fn, case_a, case_b):
                 if snap(o) != before_b[i]:
                     return ("returned-buffer-aliased", "editing the bytearray returned by %s (op %d) changed the state of a %s: "
                             "the returned octets alias internal state" % (rec.buffer_src.get(bid), case_a[0], type(o).__name__))
+    # 1c. generic invariants of every live object (done last among the read-only steps: pack() may
+    #     fill caches, so the snapshots are refreshed afterwards)
+    r = generic_invariants(list(rec.handed.values()), case_a[0])
+    if r is not None:
+        return r
+    before = {i: snap(o) for i, o in rec.objs.items()}
     # 2. perturbing the caller's PduConfig must not change anything else
     for i, c in rec.inputs.items():
         if type(c).__name__ != "PduConfig":
